@@ -606,3 +606,33 @@ Proof.
   - eapply bpwf_same_locs; [exact B|rewrite F2; reflexivity|destruct X as [Hle _]; unfold cur_off; lia].
   - rewrite Ev2, F2. exact Fr.
 Qed.
+
+(** *** return in a function without result *)
+Lemma last_label ctrls bp : Forall2 frame_ok ctrls bp -> ctrls <> [] ->
+  last (map (fun f => Some (vf_label f)) ctrls) None = Some None.
+Proof.
+  induction 1 as [|f j r b Hf Hr IH]; intros Hne; [contradiction|].
+  destruct r as [|g r']; cbn [map last].
+  - destruct Hf as (_ & -> & _). reflexivity.
+  - apply IH. discriminate.
+Qed.
+
+Lemma op_return nl cx s v v1 s1 :
+  inv nl s v -> v_unreach v = None -> cx_return cx = None -> v_ctrls v <> [] ->
+  vstep cx v (OBasic BReturn) = Some v1 -> handle_opcode cx s v1 Reachable (OBasic BReturn) = Some s1 ->
+  c_out s1 = c_out s ++ [IReturn] /\ c_bp s1 = c_bp s
+  /\ c_stack s1 = [] /\ c_next s1 = c_next s /\ c_consts s1 = c_consts s /\ c_last s1 = None
+  /\ inv nl s1 v1 /\ v_unreach v1 <> None /\ ext s s1.
+Proof.
+  intros I Hu Hret Hne Hv Hh. destruct I as [W B L Fr Md].
+  cbn [vstep] in Hv. rewrite (last_label _ _ Fr Hne) in Hv. cbn [bt_arity v_popn] in Hv.
+  unfold v_mark_unreachable in Hv. destruct (v_ctrls v) as [|f r] eqn:Ec; [discriminate|]. rewrite Hu in Hv.
+  inversion Hv; subst v1; clear Hv.
+  unfold handle_opcode in Hh. cbv beta iota zeta in Hh. apply checked in Hh. destruct Hh as [Hh Hl].
+  rewrite Hret in Hh. cbn [v_opds] in Hh, Hl. unfold truncate in Hh.
+  set (s2 := push_op (set_last s None) IReturn) in *.
+  assert (W2 : cwf nl s2) by (eapply cwf_same; [|exact W]; unfold same_alloc; cbn; tauto).
+  destruct (terminated_state nl s v f r s2 s1 [IReturn] W B Fr Ec eq_refl eq_refl eq_refl eq_refl eq_refl W2 Hh Hl)
+    as (A1 & A2 & A3 & A4 & A5 & A6 & A7 & A8).
+  splits; auto. cbn. discriminate.
+Qed.
